@@ -812,6 +812,8 @@ class Frame(object):
         if t in self.sc.unroll:
             return self.sc.unroll[t], t
         if isinstance(itv, ListV) and len(itv.elems) <= 12:
+            if any(isinstance(e, Sym) and e.text.startswith('*') for e in itv.elems):
+                return None, t          # (a, *rest): the starred part has unknown length - summarise
             return itv.elems, t
         if isinstance(itv, Const) and isinstance(itv.value, (tuple, list)) and len(itv.value) <= 12:
             return [Const(x) for x in itv.value], t
@@ -1649,6 +1651,8 @@ class Frame(object):
                     return Bytes([('C', bytes(a.value))])
                 if isinstance(a, Sym) and a.text.startswith('[') and ' for ' not in a.text:
                     return Bytes([('SYM', a.text)])
+                if isinstance(a, Sym) and st.bound.get(a.text, '').startswith('range('):
+                    return Bytes([('REP', [('C', b'\x00')], a.text)])      # bytes(i), i an index of a range: i zero octets
                 if isinstance(a, Const) and isinstance(a.value, int):
                     return Bytes([('REP', [('C', b'\x00')], render(a))])
                 return Bytes([('SYM', a.text if isinstance(a, Sym) else render(a))])
